@@ -8,16 +8,17 @@ namespace IGVerif.Odo
     array's length and position; the comparison is on Go ints, so `len-1` may be `-1`). -/
 def carry : (rlens rpos : List Nat) → Option (List Nat)
   | [], [] => some []
+  | [], _ :: _ => none
+  | _ :: _, [] => none
   | l :: ls, p :: ps =>
     if p > 0 ∧ p ≥ l then
       match ls, ps with
-      | [], [] => none                                        -- i == 0
-      | [l0], [p0] => if p0 + 1 = l0 then none                -- i == 1 && pos[0] == len0-1
-                      else (carry [l0] [p0 + 1]).map (0 :: ·)
-      | l' :: ls', p' :: ps' => (carry (l' :: ls') ((p' + 1) :: ps')).map (0 :: ·)
-      | _, _ => none
+      | [], _ => none                                           -- i == 0
+      | _ :: _, [] => none
+      | l0 :: ls', p0 :: ps' =>
+        if ls'.isEmpty && p0 + 1 == l0 then none                -- i == 1 && pos[0] == len0-1
+        else (carry (l0 :: ls') ((p0 + 1) :: ps')).map (0 :: ·) -- pos[i] = 0; pos[i-1]++
     else (carry ls ps).map (p :: ·)
-  | _, _ => none
 
 /-- one element per array; out-of-range positions are skipped (`if p >= 0 && p < len(ar)`) -/
 def select {α : Type} : (arrays : List (List α)) → (pos : List Nat) → List α
